@@ -17,32 +17,24 @@ CONSTANTS NA,         \* atoms are 0..NA-1
           Forced,     \* forced efficiencies
           InfoArrs,   \* sequence of info arrays (sequences of <<name, value>>); index 0 stands for a NULL pointer
           MaxReg, MaxRes, MaxAux, MaxErr,
-          Turns,      \* {"any"} for the exhaustive search; for random walks the kind of the next step is drawn first
-                      \* from this set ("reg1", "reg2", "reg3", "res", "aux", "err") so that registrations do not
-                      \* crowd out the other steps
           NStripes, Stripe, SimLen
 
-VARIABLES kinds, req, topo, nreg, nres, naux, nerr, turn, hist
+VARIABLES kinds, req, topo, nreg, nres, naux, nerr, hist
 
 Atoms == 0 .. NA - 1
 RECURSIVE Pow2(_)
 Pow2(n) == IF n = 0 THEN 1 ELSE 2 * Pow2(n - 1)
 MaskSet(m) == IF m < 0 THEN {} ELSE {a \in Atoms : (m \div Pow2(a)) % 2 = 1}
 
-vars == <<kinds, req, topo, nreg, nres, naux, nerr, turn, hist>>
-View == <<kinds, req, topo, nreg, nres, naux, nerr, turn>>
-TurnReg == turn \in {"any", "reg1", "reg2", "reg3"}
-TurnRes == turn \in {"any", "res"}
-TurnAux == turn \in {"any", "aux"}
-TurnErr == turn \in {"any", "err"}
+vars == <<kinds, req, topo, nreg, nres, naux, nerr, hist>>
+View == <<kinds, req, topo, nreg, nres, naux, nerr>>
 
 Init == /\ kinds = <<>> /\ req = ReqInit(Atoms) /\ topo = 0 .. NTopo - 1
         /\ nreg = 0 /\ nres = 0 /\ naux = 0 /\ nerr = 0 /\ hist = <<>>
-        /\ turn \in Turns
 
 \* hwloc_cpukinds_register(), accepted
 Register(m, fe, ia) ==
-  /\ TurnReg /\ nreg < MaxReg
+  /\ nreg < MaxReg
   /\ LET S == MaskSet(m)
          infos == IF ia = 0 THEN <<>> ELSE InfoArrs[ia]
      IN /\ kinds' = RegisterDo(kinds, S, fe, infos)
@@ -53,7 +45,7 @@ Register(m, fe, ia) ==
 
 \* hwloc_cpukinds_register(), rejected: NULL cpuset (mask -1), empty cpuset (mask 0), non-zero flags
 RegisterBad(m, fl) ==
-  /\ TurnErr /\ nerr < MaxErr
+  /\ nerr < MaxErr
   /\ RegisterRejected(MaskSet(m), m = -1, fl)
   /\ nerr' = nerr + 1
   /\ hist' = Append(hist, <<"register", m, 1, fl, 1>>)
@@ -61,7 +53,7 @@ RegisterBad(m, fl) ==
 
 \* hwloc_topology_restrict(set, 0): EINVAL when nothing would remain, else the kinds are intersected
 Restrict(m) ==
-  /\ TurnRes /\ nres < MaxRes
+  /\ nres < MaxRes
   /\ LET S == MaskSet(m) IN
        IF S \cap topo = {} THEN UNCHANGED <<kinds, req, topo>>
        ELSE /\ topo' = topo \cap S
@@ -73,14 +65,14 @@ Restrict(m) ==
 
 \* hwloc_topology_dup(): v = 0 continue on the copy, v = 1 continue on the original
 Dup(v) ==
-  /\ TurnAux /\ naux < MaxAux
+  /\ naux < MaxAux
   /\ naux' = naux + 1
   /\ hist' = Append(hist, <<"dup", v, 0, 0, 0>>)
   /\ UNCHANGED <<kinds, req, topo, nreg, nres, nerr>>
 
 \* XML export to a buffer and import in a new topology: v = 0 current format, v = 1 v2 format
 Xml(v) ==
-  /\ TurnAux /\ naux < MaxAux
+  /\ naux < MaxAux
   /\ kinds' = XmlDo(kinds)
   /\ naux' = naux + 1
   /\ hist' = Append(hist, <<"xml", v, 0, 0, 0>>)
@@ -88,19 +80,36 @@ Xml(v) ==
 
 \* hwloc_topology_refresh(): ranks again
 Refresh ==
-  /\ TurnAux /\ naux < MaxAux
+  /\ naux < MaxAux
   /\ kinds' = Rank(kinds)
   /\ naux' = naux + 1
   /\ hist' = Append(hist, <<"refresh", 0, 0, 0, 0>>)
   /\ UNCHANGED <<req, topo, nreg, nres, nerr>>
 
+BadRegs == {<<-1, 0>>, <<0, 0>>, <<CHOOSE m \in RegMasks : TRUE, 1>>, <<CHOOSE m \in RegMasks : TRUE, 1073741824>>}
+
+\* exhaustive search: every step of the alphabet
 Step == \/ \E m \in RegMasks, fe \in Forced, ia \in 0 .. Len(InfoArrs) : Register(m, fe, ia)
-        \/ \E m \in {-1, 0} : RegisterBad(m, 0)
-        \/ \E fl \in {1, 1073741824} : RegisterBad(CHOOSE m \in RegMasks : TRUE, fl)
+        \/ \E b \in BadRegs : RegisterBad(b[1], b[2])
         \/ \E m \in ResMasks : Restrict(m)
         \/ \E v \in {0, 1} : Dup(v) \/ Xml(v)
         \/ Refresh
-Next == Step /\ turn' \in Turns
+
+\* random walks (-simulate): the step and its arguments are drawn with RandomElement, so that TLC builds one to four
+\* successors per state instead of the whole alphabet and registrations do not crowd out the other steps
+SimStep ==
+  \/ \E m \in {RandomElement(RegMasks)}, fe \in {RandomElement(Forced)}, ia \in {RandomElement(0 .. Len(InfoArrs))} : Register(m, fe, ia)
+  \/ \E c \in {RandomElement(1 .. 100)} : c <= 45 /\ \E m \in {RandomElement(ResMasks)} : Restrict(m)
+  \/ \E c \in {RandomElement(1 .. 100)} : c <= 45 /\ \E v \in {RandomElement(0 .. 4)} :
+        \/ v \in {0, 1} /\ Dup(v)
+        \/ v \in {2, 3} /\ Xml(v - 2)
+        \/ v = 4 /\ Refresh
+  \/ \E c \in {RandomElement(1 .. 100)} : c <= 12 /\ \E b \in {RandomElement(BadRegs)} : RegisterBad(b[1], b[2])
+
+\* a walk stops at SimLen steps; its history is printed once, when TLC asks for the successors of its last state
+Next == IF SimLen = 0 THEN Step
+        ELSE \/ Len(hist) < SimLen /\ SimStep
+             \/ Len(hist) = SimLen /\ PrintT(<<"SIM", ToJson(hist)>>) /\ FALSE /\ UNCHANGED vars
 
 Spec == Init /\ [][Next]_vars
 
@@ -111,11 +120,9 @@ TypeOK == /\ topo \subseteq Atoms
 PropertyHolds == KindsOK(Proj(kinds), req)
 LookupHolds == \A m \in 0 .. Pow2(NA) - 1 :
                   LET r == GbcDo(kinds, MaskSet(m)) IN GbcRel(Proj(kinds), MaskSet(m), r[1], r[2])
-\* after a restrict the kinds lie inside the topology until the next registration
-\* model-level expectations (not part of the oracle): an XML round trip does not change what is observable
+\* model-level expectations (not part of the oracle): an XML round trip and a refresh do not change what is observable
 XmlStable == Proj(XmlDo(kinds)) = Proj(kinds)
-\* the implementation keeps exactly one kind per class of "covered by the same registrations": never two kinds
-\* with the same required infos and forced efficiency that a coarser partition could have merged ... not demanded.
+RankStable == Proj(Rank(kinds)) = Proj(kinds)
 
 ----------------------------------------------------------------------------
 \* emission
@@ -123,5 +130,4 @@ RECURSIVE HSum(_)
 HSum(h) == IF h = <<>> THEN 0
            ELSE LET o == Head(h) IN (Len(o[1]) + 7 * (o[2] + 1) + 3 * (o[3] + 8) + 5 * (o[4] % 1000) + 11 * o[5] + 3 * HSum(Tail(h))) % 1000003
 EmitEdge == (HSum(hist') % NStripes = Stripe) => PrintT(<<"EDGE", ToJson(hist')>>)
-EmitSim == (Len(hist) = SimLen) => PrintT(<<"SIM", ToJson(hist)>>)
 =============================================================================
